@@ -1,10 +1,18 @@
 #!/bin/bash
-# usage: try_mut.sh <patch> <check ids...>   — apply a seeded change to /repo, run checks (no proof), revert
+# usage: try_mut.sh <patch> <check ids...>
+# Apply a seeded change to a SCRATCH worktree of /repo (never to /repo itself), run the named checks against that
+# worktree (PYTHONPATH puts its src/ before the editable install; --no-proof: the Lean build is unaffected by Python
+# changes), then remove the worktree.  Safe to run several at once and while other checks run on /repo.
 patch=$(realpath "$1"); shift
-cd /repo || exit 2
+wt=$(mktemp -d /tmp/trymut_XXXXXX)
+git -C /repo worktree add -q --detach "$wt" HEAD || exit 2
+git -C /repo diff HEAD | git -C "$wt" apply 2>/dev/null    # carry /repo's uncommitted state, if any
+cleanup() { git -C /repo worktree remove --force "$wt" 2>/dev/null; rm -rf "$wt"; }
+trap cleanup EXIT
+cd "$wt" || exit 2
 git apply --3way "$patch" >/dev/null 2>&1; git reset -q
-if git diff | grep -q '^[+ ]<<<<<<<'; then echo "CONFLICT applying $patch"; git checkout -- .; exit 3; fi
+if git diff | grep -q '^[+ ]<<<<<<<'; then echo "CONFLICT applying $patch"; exit 3; fi
 if git diff --quiet; then echo "PATCH DID NOT APPLY: $patch"; exit 3; fi
-for c in "$@"; do (cd /verif && ./check $c --no-proof 2>&1 | grep -v "^KNOWN" | tail -4); done
-git checkout -- .
-git status --short | head -3
+for c in "$@"; do
+  (cd /verif && PYTHONPATH="$wt/src" VERIF_SCRATCH_OUT="${TRYMUT_OUT:-$wt/.out}" ./check $c --no-proof 2>&1 | grep -v "^KNOWN\|it/s" | tail -4)
+done
